@@ -474,6 +474,12 @@ def check_sequence_laws(col, p, kinds, steps, rng, full):
                           % (rp, a, b, c, got.value, short(got.value.items()), short(want)), dict(wit, slice=[a, b, c]))
         elif ops_of(got.value)[0] is not ops_of(p)[0]:
             col.violation('C18/path-slice-loses-root', '%s[%s:%s:%s] root changed' % (rp, a, b, c), wit)
+        elif (a, b, c) in ((None, None, None), (n, None, None), (1, 1, None), (None, 0, None), (None, None, -1)) or not want:
+            # a slice is a Path like any other: it pickles and evaluates like the Path built from the same steps
+            z = call(lambda: pickle.loads(pickle.dumps(got.value, pickle.HIGHEST_PROTOCOL)))
+            col.count('pickle_roundtrips')
+            if not z.ok or not isinstance(z.value, Path) or not items_equal(z.value.items(), want) or ops_of(z.value)[0] is not ops_of(p)[0]:
+                col.violation('C18/sliced-path-does-not-pickle', 'pickling %s[%s:%s:%s] (= %r): %r' % (rp, a, b, c, got.value, z), dict(wit, slice=[a, b, c]))
     # equality / startswith
     for k in range(n + 1):
         pre_ops = (ops_of(p)[0],) + tuple(itertools.chain.from_iterable(steps[:k]))
